@@ -33,7 +33,7 @@ manifest = {
     "setup_cmd": "./setup.sh",
     "hooks": {
         "guard": "verif",
-        "enable": "go build -tags verif -overlay <generated overlay.json>: hook files live in /verif/hooks/<pkg>/ (//go:build verif) and are added to the repository packages through the build overlay together with rewritten copies (time/math-rand/sync imports redirected to /verif/shim) generated from the CURRENT /repo working tree by cmd/xform at every check; /repo itself carries no hook code",
+        "enable": "go build -tags verif -overlay <generated overlay.json>: hook files live in /verif/hooks/<pkg>/ (shared) and /verif/harness/<id>/hooks/<pkg>/ (one check only), all //go:build verif, and are added to the repository packages through the build overlay together with rewritten copies (time/math-rand/sync imports redirected to /verif/shim) generated from the CURRENT /repo working tree by cmd/xform at every check; /repo itself carries no hook code",
         "baseline_off_cmd": "cd /repo && GOFLAGS=-mod=mod GOPROXY=off GOSUMDB=off GOTOOLCHAIN=local go test -vet=off -count=1 -timeout 25m ./...",
         "source_commits": [],
         "add_only": True,
